@@ -32,7 +32,7 @@ def program_slices(tier):
                         [[], ["tag"], ["rename_all"], ["optional_fields"], ["rename"], ["tag", "rename_all"], ["rename_all_kebab"]],
                         ["named"], [], [],
                         ["i32", "u64", "string", "unit", "opt_i32", "opt_inner", "vec_inner", "tup", "map", "map_e", "box_inner", "inner", "unite",
-                         "datae", "tage", "gen_inner", "pair", "optopt", "f64", "char", "deep", "vec_deep", "tree", "opt_tree", "oneu"],
+                         "datae", "tage", "gen_inner", "pair", "optopt", "f64", "char", "deep", "vec_deep", "tree", "opt_tree", "oneu", "box_tage"],
                         [[], ["skip"], ["flatten"], ["inline"], ["optional"], ["optional_nullable"], ["optional_ssi"], ["rename"], ["default"]],
                         tys2=("string", "opt_i32") if not q else ("string",))))
     sl.append(("S2", sc(["struct"], [], [[], ["rename"]], ["tuple", "newtype", "unit", "named0", "tuple0"], [], [],
@@ -46,6 +46,10 @@ def program_slices(tier):
     vpairs = [list(x) for x in itertools.combinations(["untagged", "rename", "rename_all", "skip"], 2)]
     sl.append(("E5", sc(["enum"], reprs, [[], ["rename_all", "rename_all_fields"], ["rename_all_kebab", "rename"]], [], ["struct2", "newtype", "unit"], vpairs,
                         ["opt_i32", "inner"] if q else ["opt_i32", "inner", "tage"], [[], ["rename"], ["inline"]], tys2=("string",))))
+    # both fields of a tuple / struct variant (and of a tuple struct) skipped or not
+    sl.append(("E6", sc(["enum"], reprs, [[]], [], ["tuple", "struct2", "newtype"], [[], ["untagged"]], ["i32", "inner"], [[], ["skip"]],
+                        tys2=("string",), fattrsets2=([], ["skip"]))))
+    sl.append(("S4", sc(["struct"], [], [[], ["rename"]], ["tuple", "named"], [], [], ["i32", "inner"], [[], ["skip"]], tys2=("string",), fattrsets2=([], ["skip"]))))
     # generic programs P<T>, instantiated at i32 / Inner / Option<i32> (thorough: also Vec<Inner>, UnitE)
     gargs = ["i32", "inner", "opt_i32"] if q else list(corpus.GEN_ARGS)
     sl.append(("G1", sc(["struct"], [], [[], ["tag"], ["optional_fields"]] if q else [[], ["tag"], ["optional_fields"], ["rename_all"], ["rename"]],
